@@ -3,6 +3,8 @@
 //! `arrive` = clone, `poll_ready`, `call` (refusal: `result c notready`); `manual check c=<c>` does the
 //! clone + `poll_ready` now and keeps the ready clone for a later `arrive c` (which then only calls);
 //! `manual warm prog=…` feeds the algorithm directly (sequential); probes `in_flight`, `limit`, `ready`.
+//! `arrive … keep=1` (world.rs): the caller keeps the resolved `AdaptiveFuture` alive (it is wrapped by `held`) until
+//! `release <c>` — the slot must be free from the completion on, not from the release on.
 use crate::mw_limit::{build_algorithm, parse_prog, render_outs, run_prog};
 use crate::world::*;
 use std::collections::{BTreeMap, BTreeSet};
